@@ -38,6 +38,9 @@ pub enum Mode {
     ChildFaults(InFault, OutFault),
     /// malformed argv tail (everything after the input file)
     Malformed(Vec<String>),
+    /// the real binary under the system-call seam: short reads / writes, EINTR, errno failures at
+    /// decider-chosen calls on the input file, the --out file or stdout
+    ChildSys { plan: cli::SysPlan, to_stdout: bool },
 }
 
 #[derive(Clone, Debug, Serialize, Deserialize, PartialEq)]
@@ -732,7 +735,7 @@ impl Property for C06 {
         "exploration"
     }
     fn rule(&self) -> String {
-        "decider generates a circuit (1..4 qubits quick / 5 thorough, <=14 gates from the QASM-expressible unitary set; sub-batches: Clifford+T without SWAP, with SWAP, with non-k*pi/4 phases, with idle qubits, zero-gate programs), prints it with the harness's own QASM printer, picks a query (amplitude / expectation incl. broadcast and lower case, --shots 0..16, default task), method and --parallel, and calls the CLI in-process with the ambient-RNG seam (every Bernoulli draw of the sampler is a decider decision), the fork-join seam and the Bernoulli observer installed; the same query is repeated under another method and the other --parallel setting. Oracles from the harness's state-vector simulator: printed probability / expectation; S1 every printed sample has non-zero Born probability; S2 each (prefix, p) handed to a Bernoulli draw satisfies p = P(next=1 | prefix); S3 (stats sub-batch) chi-square of decider-driven samples against the Born distribution at 1e-12. Malformed argv must give an error, not a panic or an answer. Fault sub-batch: the real binary as a child under input faults (missing, directory, empty, torn at a statement boundary / mid token) and output faults (ENOSPC, torn write by RLIMIT_FSIZE, missing directory, directory target, stdout to /dev/full, closed pipe): success only with the complete correct answer. Non-trivial: >=2 basis states with non-zero probability and a marginal strictly between 0 and 1 conditioned on a non-deterministic prefix. Distinct by (scenario digest, event digest).".into()
+        "decider generates a circuit (1..4 qubits quick / 5 thorough, <=14 gates from the QASM-expressible unitary set; sub-batches: Clifford+T without SWAP, with SWAP, with non-k*pi/4 phases, with idle qubits, zero-gate programs), prints it with the harness's own QASM printer, picks a query (amplitude / expectation incl. broadcast and lower case, --shots 0..16, default task), method and --parallel, and calls the CLI in-process with the ambient-RNG seam (every Bernoulli draw of the sampler is a decider decision), the fork-join seam and the Bernoulli observer installed; the same query is repeated under another method and the other --parallel setting. Oracles from the harness's state-vector simulator: printed probability / expectation; S1 every printed sample has non-zero Born probability; S2 each (prefix, p) handed to a Bernoulli draw satisfies p = P(next=1 | prefix); S3 (stats sub-batch) chi-square of decider-driven samples against the Born distribution at 1e-12. Malformed argv must give an error, not a panic or an answer. Fault sub-batch: the real binary as a child under input faults (missing, directory, empty, torn at a statement boundary / mid token) and output faults (ENOSPC, torn write by RLIMIT_FSIZE, missing directory, directory target, stdout to /dev/full, closed pipe), and sub-batch sysfaults: the child under the system-call seam (LD_PRELOAD shim: short reads / short writes, EINTR and errno failures at decider-chosen open/read/write calls on the input file, the --out file or stdout; up to 300 shots so that the answer spans several writes): success only with the complete correct answer for the complete program. Non-trivial: >=2 basis states with non-zero probability and a marginal strictly between 0 and 1 conditioned on a non-deterministic prefix. Distinct by (scenario digest, event digest).".into()
     }
     fn assumptions(&self) -> Vec<String> {
         vec![
@@ -742,7 +745,7 @@ impl Property for C06 {
         ]
     }
     fn real_vs_stub(&self) -> Value {
-        json!({"real": ["clap argument parsing", "Cli::run / SimArgs::run", "openqasm parser reading the real file", "circuit->diagram translation, full_simp, Decomposer with both CLI drivers", "fs::write of the result", "the shipped quizx binary (child-process runs: exit status, stdout, rlimits)"], "stubbed": ["entropy behind the sampler's rand::rng(): decider draws (in-process runs only)", "rayon scheduler under --parallel: decider-driven fork-join model (in-process runs only)"]})
+        json!({"real": ["clap argument parsing", "Cli::run / SimArgs::run", "openqasm parser reading the real file", "circuit->diagram translation, full_simp, Decomposer with both CLI drivers", "fs::write of the result", "the kernel's open/read/write behind the LD_PRELOAD shim (the shim only limits how many bytes a call may transfer or picks the errno; data moves through the real system call)", "the shipped quizx binary (child-process runs: exit status, stdout, rlimits)"], "stubbed": ["entropy behind the sampler's rand::rng(): decider draws (in-process runs only)", "rayon scheduler under --parallel: decider-driven fork-join model (in-process runs only)"]})
     }
     fn sub_batches(&self) -> Vec<SubBatch> {
         vec![
@@ -756,6 +759,7 @@ impl Property for C06 {
             SubBatch { name: "child", quick: 400, thorough: 4_000 },
             SubBatch { name: "child_threads", quick: 600, thorough: 12_000 },
             SubBatch { name: "faults", quick: 800, thorough: 8_000 },
+            SubBatch { name: "sysfaults", quick: 1_000, thorough: 12_000 },
             SubBatch { name: "stats", quick: 48, thorough: 600 },
             SubBatch { name: "wide", quick: 160, thorough: 4_000 },
             SubBatch { name: "deeper", quick: 1_200, thorough: 30_000 },
@@ -777,7 +781,7 @@ impl Property for C06 {
 
     fn generate(&self, d: &mut Decider, tier: Tier, sub: &str) -> Sc {
         let family = match sub {
-            "malformed" | "child" | "faults" | "stats" => "clifford_t",
+            "malformed" | "child" | "faults" | "sysfaults" | "stats" => "clifford_t",
             "child_threads" => "t_heavier",
             s => s,
         };
@@ -835,6 +839,13 @@ impl Property for C06 {
                     OutFault::None
                 };
                 (q, Mode::ChildFaults(inf, outf))
+            }
+            "sysfaults" => {
+                // long outputs (many shots) in a quarter of the runs, so that the result spans several
+                // write calls and buffers
+                let q = if d.coin("sys.many", 1, 4) { Query::Shots(50 + d.choose("sys.shots", 250)) } else { gen_query(d, n, 8) };
+                let hard = d.coin("sys.hard", 1, 3);
+                (q, Mode::ChildSys { plan: cli::gen_sysplan(d, hard), to_stdout: d.coin("sys.stdout", 1, 2) })
             }
             "stats" => (Query::Shots(if tier == Tier::Thorough { 2000 } else { 400 }), Mode::InProcess),
             "deeper" => (gen_query(d, n, 6), Mode::InProcess),
@@ -1065,6 +1076,79 @@ impl Property for C06 {
                 }
                 out.nontrivial = nz >= 2;
             }
+            Mode::ChildSys { plan, to_stdout } => {
+                out.engine = "child_process";
+                let bin = match &env.quizx_bin {
+                    Some(b) => b.clone(),
+                    None => panic!("QSIM_QUIZX_BIN not set"),
+                };
+                let input = cli::prepare_input(&scratch, &header, &stmts, &InFault::None);
+                let mut tail: Vec<String> = vec!["sim".into(), input.to_string_lossy().to_string()];
+                tail.extend(argv_tail(sc));
+                tail.extend(method_args(sc.method, sc.parallel));
+                let (res, events) = cli::run_child_sys(&bin, &tail, &scratch, plan, *to_stdout);
+                out.steps += 1 + events.len() as u64;
+                let mut fired = 0;
+                let mut hard = false;
+                for e in &events {
+                    // stdout of a sampling run depends on the real RNG: fold only the shape of the calls
+                    out.ev_str(&format!("{}{}", e.op, e.tok));
+                    if let Some(name) = e.fault_name() {
+                        out.fault(&name);
+                        fired += 1;
+                        hard |= e.is_hard_error();
+                    }
+                }
+                if fired == 0 {
+                    out.fault("sys_none_fired");
+                }
+                let how = format!("quizx {} ({}) under system-call plan {}", tail[2..].join(" "), if *to_stdout { "stdout" } else { "--out" }, plan.env());
+                let mut j = Judge { sc, batch: sub, t: &t, out: &mut out };
+                match res {
+                    // the input file is complete on disk whatever the reads did: a reported success is
+                    // judged against the whole program and must carry the whole answer
+                    CliResult::Ok(Some(text)) => {
+                        j.out.ev_str("ok");
+                        j.out.probe(if hard { "sys_success_after_errno_judged" } else if fired > 0 { "sys_success_under_transparent_faults_judged" } else { "sys_success_no_fault_fired" });
+                        let text = if *to_stdout { text.strip_suffix('\n').unwrap_or(&text).to_string() } else { text };
+                        let before = j.out.event_digest;
+                        let nb = j.out.violations.len();
+                        j.text(&sc.query, &text, &how);
+                        if matches!(sc.query, Query::Shots(_) | Query::DefaultTask) {
+                            j.out.event_digest = before;
+                        }
+                        if fired > 0 {
+                            for v in j.out.violations[nb..].iter_mut() {
+                                v.class = format!("sys_{}", v.class);
+                            }
+                        }
+                    }
+                    CliResult::Ok(None) => j.vio("success_without_output", format!("{how}: exit 0 but the --out file cannot be read")),
+                    CliResult::Err(e) => {
+                        j.out.ev_str("err");
+                        if fired == 0 {
+                            if !matches!(want(&t, &sc.query), Want::Error) {
+                                j.vio("unexpected_error", format!("{how}: failed: {e}"));
+                            }
+                        } else if hard {
+                            j.out.probe("fault_led_to_reported_failure");
+                        } else if !matches!(want(&t, &sc.query), Want::Error) {
+                            j.out.probe("sys_transparent_fault_led_to_failure");
+                        }
+                    }
+                    CliResult::Panic(m) => {
+                        j.out.ev_str("panic");
+                        if fired == 0 {
+                            let v = Violation::new("panic", format!("{how}: {m}")).with("batch", sub).with("msg", super::c18::norm_msg(&m));
+                            j.out.violations.push(v);
+                        } else {
+                            j.out.probe("fault_led_to_panic");
+                        }
+                    }
+                    CliResult::Budget => {}
+                }
+                out.nontrivial = fired > 0;
+            }
             Mode::ChildFaults(inf, outf) => {
                 out.engine = "child_process";
                 let bin = match &env.quizx_bin {
@@ -1238,6 +1322,11 @@ impl Property for C06 {
                 let mut cc = sc.circ.clone();
                 cc.gates[i] = HGate { k, qs };
                 c.push(Sc { circ: cc, ..sc.clone() });
+            }
+        }
+        if let Mode::ChildSys { plan, to_stdout } = &sc.mode {
+            for p in cli::shrink_sysplan(plan) {
+                c.push(Sc { mode: Mode::ChildSys { plan: p, to_stdout: *to_stdout }, ..sc.clone() });
             }
         }
         c
